@@ -22,9 +22,11 @@ from fractions import Fraction
 import numpy as np
 
 PROP = 'C19'
-TARGETS = ['T12', 'T13a', 'T13c', 'T13n', 'T19a', 'T19b', 'T19s', 'T19m', 'T19l', 'T19t', 'T19q', 'T19f']
+TARGETS = ['T12', 'T13a', 'T13c', 'T13n', 'T13d', 'T13g', 'T19a', 'T19b', 'T19s', 'T19m', 'T19l', 'T19t', 'T19q', 'T19f',
+           # the read skeletons of C05 (the read paths of Model/PMapRead.lean are written with them)
+           'T1', 'T1b', 'T4', 'T11', 'T11b', 'T11c', 'T11d', 'T11e']
 LEAN_MODULES = ['HdVerif.Props.C19']
-MODEL_MODULES = ['HdVerif.Model.PMap']
+MODEL_MODULES = ['HdVerif.Model.PMap', 'HdVerif.Model.PMapRead']
 NAMESPACE = 'HdVerif.C19'
 DRIVER = 'Drivers/C19.lean'
 RULE = ('parametric maps generated from (source kind series / multi-frame / slide, N planes 1..5, M mappings 1..3 or a '
@@ -645,6 +647,80 @@ def _check_pm(ctx, idx, reqs, pending):
                                 vol2 if s10 != 'ok' else f'get_volume with selector {selector!r} differs from mapping {target["label"]} '
                                                           f'(the channel has {len(desc[0])} mappings)',
                                 None, mapping=m['kind'], selector=skind, single_lut=_is_single(target))
+    # ---- HISTORIES on one object: a drawn sequence of get_stored_frame / get_stored_frames / pixel_array / get_frame(real-world)
+    # calls -- in range and beyond, by number and by index -- on ONE freshly opened image (in memory, lazily): every read must
+    # return the stored plane (resp. the plane under the selected mapping of its channel) whatever was called before.  The same
+    # sequence runs through the model's state machine (`Model/PMapRead.run`, L0): float maps follow the open finding there
+    # (what a read returns depends on whether `pixel_array` was touched).
+    if d['ts'] in NATIVE and (ctx.tier != 'thorough' or idx % 4 == 0):
+        rh = ctx.rng('pm-history', idx)
+        for lazy in (False, True):
+            tag = 'lazy' if lazy else 'eager'
+            sto, im = _try(hd.imread, io.BytesIO(blob), lazy_frame_retrieval=lazy)
+            if sto != 'ok':
+                continue
+            ops, got = [], []
+            touched = False
+            for _step in range(rh.randint(5, 9)):
+                kind = rh.choice(['stored', 'stored', 'storedBatch', 'pixelArray', 'real'])
+                f = F if rh.random() < 0.12 else rh.randrange(F)
+                ai = rh.random() < 0.5
+                key = f if ai else f + 1
+                if rh.random() < 0.3:
+                    key = np.int64(key)
+                state = 'after pixel_array' if touched else 'fresh'
+                if kind == 'pixelArray':
+                    s1, v = _try(lambda: im.pixel_array)
+                    ops.append({'op': 'pixelArray'})
+                    got.append('done' if s1 == 'ok' else 'err')
+                    if s1 == 'ok':
+                        touched = True
+                        obs(f'{tag}/history-pixel_array', _raw_equal(_as_shape(v, want.shape), want), None, None, float=is_float, history=state)
+                    else:
+                        obs(f'{tag}/history-pixel_array', False, v, None, float=is_float, history=state)
+                    continue
+                if kind in ('stored', 'storedBatch'):
+                    if kind == 'stored':
+                        s1, v = _try(im.get_stored_frame, key, as_index=ai)
+                    else:
+                        s1, v = _try(im.get_stored_frames, [key], as_indices=ai)
+                        if s1 == 'ok':
+                            v = np.asarray(v)[0]
+                    ops.append({'op': kind, 'f': f, 'ai': ai})
+                    got.append(list(np.ascontiguousarray(v).astype(v.dtype.newbyteorder('<')).tobytes()) if s1 == 'ok' else 'err')
+                    if f < F:
+                        obs(f'{tag}/history-{kind}', s1 == 'ok' and _raw_equal(v, planes[f]), v if s1 != 'ok' else
+                            f'frame {f} read {state} differs from the stored plane', f, float=is_float, history=state)
+                    elif s1 == 'ok':
+                        obs(f'{tag}/history-{kind}', False, f'frame beyond the image accepted ({state})', f, history=state)
+                    continue
+                j = (f % M) if f < F else 0
+                k = rh.randrange(len(desc[j]))
+                m = desc[j][k]
+                selector = rh.choice([k, k - len(desc[j]), m['label']])
+                target = m
+                s5, v = _try(im.get_frame, key, as_index=ai, apply_real_world_transform=True, real_world_value_map_selector=selector)
+                ops.append({'op': 'real', 'f': f, 'ai': ai, 'sel': _sel_json(selector)})
+                if is_float:
+                    got.append('err' if s5 != 'ok' else 'values')
+                    if s5 != 'ok' and f < F:
+                        obs(f'{tag}/history-real', False, v, f, float=True, history=state)
+                    continue
+                exp = _expected_real(planes[f], target) if f < F else None
+                got.append([_rat(float(t)) for t in np.asarray(v, dtype=np.float64).reshape(-1)] if s5 == 'ok' else 'err')
+                if f >= F:
+                    if s5 == 'ok':
+                        obs(f'{tag}/history-real', False, f'frame beyond the image accepted ({state})', f, history=state)
+                elif exp is None:
+                    if s5 == 'ok':
+                        obs(f'{tag}/history-real', False, 'values outside the mapped range were mapped silently', f, history=state)
+                else:
+                    good = s5 == 'ok' and np.asarray(v).shape == exp.shape and bool(np.array_equal(np.asarray(v, dtype=np.float64), exp))
+                    obs(f'{tag}/history-real', good, v if s5 != 'ok' else f'real-world frame {f} read {state} differs from mapping '
+                        f'{target["label"]} of channel {j}', f, mapping=m['kind'], history=state)
+            queries.append({'q': 'history', 'f': 0, 'how': tag if lazy else 'memory', 'ops': ops})
+            impl['answers'].append(got)
+            ctx.hist('history_length', len(ops))
     reqs.append(_pm_request(a, desc, nested, len(desc), pos, len(pos), d['ts'], queries))
     pending.append((case, 'pm', impl))
 
@@ -1012,6 +1088,10 @@ def _sc_random(ctx, reqs, pending):
         _check_sc(ctx, 'random', dt, ba, shape, pi, ts, r.choice(['PATIENT', 'SLIDE']), 100000 + i, layout=layout, reqs=reqs, pending=pending)
 
 
+def _is_rat(t):
+    return isinstance(t, str) and t not in ('err', 'done', 'values')
+
+
 def _compare_pm(ctx, case, impl, ans):
     if 'proto_err' in ans:
         ctx.disagree('L0', case, impl if impl == 'err' else 'object', ans, 'model protocol error')
@@ -1046,6 +1126,13 @@ def _compare_pm(ctx, case, impl, ans):
             if (ia == 'err') == m_ok:
                 ctx.disagree('L0', dict(case, query=q), ia if ia == 'err' else 'values', ma if not m_ok else 'values', 'read: ok-vs-error')
                 return
+        elif isinstance(ia, list) and ia and isinstance(ma['ok'], list) and any(isinstance(t, (list, str)) and not _is_rat(t) for t in ia):
+            # a history: one result per operation ('err', 'done', 'values', bytes of a frame, exact rationals)
+            for step, (mo, io_) in enumerate(zip(ma['ok'], ia)):
+                if (io_ == 'err') != (mo == 'err') or (io_ not in ('err', 'values') and mo != io_):
+                    ctx.disagree('L0', dict(case, query=q, step=step), io_ if isinstance(io_, str) else io_[:16],
+                                 mo if isinstance(mo, str) else mo[:16], 'read after a history on one object')
+                    return
         elif ia != 'values' and ma['ok'] != ia:
             ctx.disagree('L0', dict(case, query=q), ia[:16], ma['ok'][:16], 'read: values')
             return
